@@ -10,8 +10,9 @@ func init() {
 
 func vpUnrelatedWork() {
 	// parse and evaluate unrelated formulas (with assignments, errors and builtins) in between
-	for _, f := range []string{"$z = 1 + 2, [$z, abs(-1)]", "1 +", "q.r.s == null ? 'a' : left('xyz', 1)", "[round(2.5), roundBank(3.5), ceil(1.2), 7 / 2, 7 % 2]",
-		"regexp('abc', 'b+') ? regexp('x', '(') : 0", "toString(1.50) + lpad('a', '0', 3) + join(['a', 'b'], ',')"} {
+	for _, f := range []string{"$z = 1 + 2, [$z, abs(-1)]", "1 +", "q.r.s == null ? 'a' : left('xyz', 1)", "[roundBank(3.5), ceil(1.2), 7 / 2, 7 % 2, round(2.5)]",
+		"regexp('abc', 'b+') ? regexp('x', '(') : 0", "toString(1.50) + lpad('a', '0', 3) + join(['a', 'b'], ',')",
+		"[toInt(7.25), -(2.5), abs(-9.75), round(0.125), ceil(7.25)]"} {
 		code, err := ParseSourceCode([]byte(f))
 		if err != nil {
 			continue
@@ -99,7 +100,7 @@ var vpC08Pool = []string{
 	"regexp(s, '[')", "regexp('xyz', '(') ? 1 : 2", "regexp(s, 'b+')", "[regexp('a', 'a'), regexp('b', 'c')]",
 	"3000000000000000000000000000000001 / 2 - 1500000000000000000000000000000000",
 	"1000000000000000000000000000000000 + 0.5 == 1000000000000000000000000000000000",
-	"1 / 3 * 3 == 1", "round(2.5) + roundBank(2.5) + round(-0.5)", "toString(1 / 3)", "2.5 % 1 + ceil(1.2) + floor(-1.2)",
+	"1 / 3 * 3 == 1", "round(2.5) + roundBank(2.5) + round(-0.5)", "7.25 + 1", "[2.5, 9.75 * 2, 0.125 + 0.125]", "toString(1 / 3)", "2.5 % 1 + ceil(1.2) + floor(-1.2)",
 }
 
 // C08/pool: state-sensitive formulas evaluated three times in fresh runners,
